@@ -3,7 +3,7 @@
  * Drives the tree's unmodified layer1/tdma_sched.c, which operates on the real
  * `l1s.tdma_sched` (the global `l1s` is defined here; nothing else of sync.c is needed).
  *
- *   drv_c08 bfs K=<n> off=<a,b,..|all> prio=<i,j,..> resched=<N,..|-> rprio=<i> sets=<s,..|-> cap=<maxstates>
+ *   drv_c08 bfs K=<n> off=<a,b,..|all> prio=<i,j,..> resched=<N,..|-> rstcb=<v,..|-> rprio=<i> sets=<s,..|-> cap=<maxstates>
  *        breadth-first search over all event sequences with at most K outstanding items.
  *        A state is (ring position, live contents of every bucket in slot order, reference
  *        model: pending items by frame distance).  The ring position is part of the state.
@@ -14,7 +14,8 @@
  *   drv_c08 order <n> <lo> <hi>    all length-n priority sequences over n ranks (n^n), index range
  *
  * Event tokens: s<off>.<pi> schedule a logging item with priority PRIOS[pi]; r<off>.<N>.<pi> schedule an
- * item whose callback schedules a follow-up N frames ahead; S<off>.<shape> tdma_schedule_set of one
+ * item whose callback schedules a follow-up N frames ahead; z<off>.<v>.<pi> schedule an item whose callback calls
+ * tdma_sched_reset() and then schedules nothing (v=0), an item for this frame (1) or for the next frame (2); S<off>.<shape> tdma_schedule_set of one
  * of 5 set shapes; t frame step (execute + advance); x execute without advance; R reset.
  *
  * The reference is written from the property statement: a map (absolute frame -> multiset of
@@ -58,7 +59,7 @@ static int in_child;            /* verifier child: collect keys, print nothing *
 static const int16_t PRIOS[8] = { -32768, -257, -1, 0, 1, 255, 256, 32767 };
 
 /* ------------------------------------------------------------------ observation log */
-enum { CB_LOG0, CB_LOG1, CB_LOG2, CB_RESCHED, CB_POISON, CB_OTHER, N_CBID };
+enum { CB_LOG0, CB_LOG1, CB_LOG2, CB_RESCHED, CB_RST, CB_POISON, CB_OTHER, N_CBID };
 struct lent { long frame; uint8_t cb, p1, p2; uint16_t p3; int rrc; };
 #define LOGMAX 96
 static struct lent lg[LOGMAX];
@@ -88,8 +89,18 @@ static int cb_resched(uint8_t p1, uint8_t p2, uint16_t p3)
 	e->rrc = tdma_schedule(p2, &cb_log0, FU_P1(p1), FU_P2, FU_P3(p3), FU_PRIO(p1));
 	return 0;
 }
-static tdma_sched_cb *const cbtab[N_CBID] = { cb_log0, cb_log1, cb_log2, cb_resched, cb_poison, NULL };
-static const char *const cbname[N_CBID] = { "log0", "log1", "log2", "resched", "DEAD-SLOT", "unknown-fn" };
+/* a callback that resets the scheduler from inside tdma_sched_execute(), as the firmware's own primitives do
+ * (prim_fbsb.c), and then, depending on p2, schedules nothing (0), an item for this frame (1) or for the next (2) */
+static int cb_rst(uint8_t p1, uint8_t p2, uint16_t p3)
+{
+	struct lent *e = logit(CB_RST, p1, p2, p3);
+	tdma_sched_reset();
+	if (p2 == 1 || p2 == 2)
+		e->rrc = tdma_schedule(p2 - 1, &cb_log0, FU_P1(p1), FU_P2, FU_P3(p3), FU_PRIO(p1));
+	return 0;
+}
+static tdma_sched_cb *const cbtab[N_CBID] = { cb_log0, cb_log1, cb_log2, cb_resched, cb_rst, cb_poison, NULL };
+static const char *const cbname[N_CBID] = { "log0", "log1", "log2", "resched", "reset-cb", "DEAD-SLOT", "unknown-fn" };
 NOSAN static uint8_t cbid(tdma_sched_cb *f)
 {
 	int i;
@@ -355,6 +366,16 @@ static void ev_resched(int off, int N, int pi)
 	ref_add(now + off, intern(CB_RESCHED, p1, p2, p3, PRIOS[pi], 0));
 }
 
+static void ev_rstcb(int off, int variant, int pi)
+{
+	uint8_t p1 = 0x50 + pi, p2 = variant; uint16_t p3 = 0x4321 + 0x0100 * variant;
+	nlog = 0;
+	int rc = tdma_schedule(off, &cb_rst, p1, p2, p3, PRIOS[pi]);
+	check_no_calls("tdma_schedule");
+	if (rc != 0) viol(rc < 0 ? "C08:schedule-refused" : "C08:retval:schedule", "tdma_schedule(off=%d, prio=%d) returned %d, expected 0", off, PRIOS[pi], rc);
+	ref_add(now + off, intern(CB_RST, p1, p2, p3, PRIOS[pi], 0));
+}
+
 static unsigned long n_set_nonfirst_slot24, n_set_wrapping;   /* set calls with a non-first frame in ring slot 24 / crossing 24->0 */
 static void ev_set(int off, int s)
 {
@@ -375,6 +396,7 @@ static void ev_set(int off, int s)
 		ref_add(now + off + sh->d[i].frame, intern(sh->d[i].cb, sh->d[i].p1, sh->d[i].p2, sh->p3, sh->d[i].prio, sh->d[i].flags));
 }
 
+static unsigned long n_reset_in_cb;
 static unsigned long exec_hist[9];   /* execute calls by number of callbacks they ran (8 = 8 or more) */
 static const char *hist_json(void)
 {
@@ -387,7 +409,8 @@ static const char *hist_json(void)
 static void ev_exec(void)
 {
 	int i, k;
-	for (i = 0; i < nref; i++) ref[i].pre = 1;
+	int load_max = 0, load_min = 0;      /* items this frame has held since it was last emptied (a frame's capacity is 8) */
+	for (i = 0; i < nref; i++) { ref[i].pre = 1; if (ref[i].due == now) { load_max++; load_min += !ref[i].opt; } }
 	nlog = 0; log_lost = 0;
 	int rc = tdma_sched_execute();
 	exec_hist[nlog + log_lost < 8 ? nlog + log_lost : 8]++;
@@ -430,13 +453,27 @@ static void ev_exec(void)
 			last = pr; have_last = 1;
 		}
 		ref_del(hit);
-		if (e->cb == CB_RESCHED) {
-			int full = ref_count_due(now + e->p2) >= NCB;
-			if (!full) {
-				if (e->rrc != 0) viol("C08:schedule-refused", "tdma_schedule(off=%d) from a callback returned %d, expected 0", e->p2, e->rrc);
-				ref_add(now + e->p2, intern(CB_LOG0, FU_P1(e->p1), FU_P2, FU_P3(e->p3), FU_PRIO(e->p1), 0));
-			} else if (e->rrc >= 0)
-				viol("C08:overflow-not-reported", "tdma_schedule(off=%d) from a callback into a full frame returned %d", e->p2, e->rrc);
+		if (e->cb == CB_RST) {
+			/* tdma_sched_reset() from inside the frame: everything scheduled for later frames is gone; what is
+			 * still pending in this frame may run in it or not at all (header: "erase all scheduled items";
+			 * tdma_sched.c: "current bucket will be reset by iteration code above") */
+			n_reset_in_cb++;
+			for (i = 0; i < nref; i++) {
+				if (ref[i].due > now) { ref_del(i); i--; }
+				else ref[i].opt = 1;
+			}
+			load_min = 0;
+		}
+		if (e->cb == CB_RESCHED || (e->cb == CB_RST && e->p2 >= 1 && e->p2 <= 2)) {
+			/* an item scheduled by the callback: accepted -> it must run exactly once in its frame */
+			int off = e->cb == CB_RESCHED ? e->p2 : e->p2 - 1;
+			int lmax = off ? ref_count_due(now + off) : load_max, lmin = off ? lmax : load_min;
+			if (lmax < NCB && e->rrc != 0) viol("C08:schedule-refused", "tdma_schedule(off=%d) from a callback returned %d, expected 0", off, e->rrc);
+			else if (lmin >= NCB && e->rrc >= 0) viol("C08:overflow-not-reported", "tdma_schedule(off=%d) from a callback into a full frame returned %d", off, e->rrc);
+			if (e->rrc == 0 && lmin < NCB) {
+				ref_add(now + off, intern(CB_LOG0, FU_P1(e->p1), FU_P2, FU_P3(e->p3), FU_PRIO(e->p1), 0));
+				if (!off) { load_max++; load_min++; }
+			}
 		}
 	}
 	if (log_lost) viol("C08:runaway-execute", "more than %d callbacks in one execute", LOGMAX);
@@ -449,8 +486,15 @@ static void ev_exec(void)
 		}
 	if (rc != nlog + log_lost)
 		viol("C08:retval:execute", "tdma_sched_execute returned %d after running %d item(s)", rc, nlog + log_lost);
-	if (SCHED.bucket[SCHED.cur_bucket % NB].num_items != 0)
+	if (SCHED.bucket[SCHED.cur_bucket % NB].num_items != 0) {
 		viol("C08:bucket-not-empty", "executed frame still holds %u item(s)", SCHED.bucket[SCHED.cur_bucket % NB].num_items);
+		/* the observable side of it (this transition is not continued anyway): executing the frame once more */
+		nlog = 0; log_lost = 0;
+		tdma_sched_execute();
+		if (nlog + log_lost)
+			viol("C08:ran-twice", "a second tdma_sched_execute() in the same frame ran %d item(s) again (first: %s p1=0x%02x p2=0x%02x p3=0x%04x)",
+			     nlog + log_lost, cbname[lg[0].cb], lg[0].p1, lg[0].p2, lg[0].p3);
+	}
 	nlog = 0;
 }
 
@@ -561,7 +605,7 @@ struct event { char kind; int a, b, c; };
 static int ev_cost(const struct event *e)
 {
 	switch (e->kind) {
-	case 's': case 'r': return 1;
+	case 's': case 'r': case 'z': return 1;
 	case 'S': return shapes[e->b].nitems;
 	}
 	return 0;
@@ -579,6 +623,7 @@ static void ev_apply(const struct event *e)
 	switch (e->kind) {
 	case 's': ev_schedule(e->a, e->b); break;
 	case 'r': ev_resched(e->a, e->b, e->c); break;
+	case 'z': ev_rstcb(e->a, e->b, e->c); break;
 	case 'S': ev_set(e->a, e->b); break;
 	case 't': ev_exec(); ev_advance(); break;
 	case 'x': ev_exec(); break;
@@ -589,7 +634,7 @@ static int ev_print(char *buf, const struct event *e)
 {
 	switch (e->kind) {
 	case 's': case 'S': return sprintf(buf, "%c%d.%d", e->kind, e->a, e->b);
-	case 'r': return sprintf(buf, "r%d.%d.%d", e->a, e->b, e->c);
+	case 'r': case 'z': return sprintf(buf, "%c%d.%d.%d", e->kind, e->a, e->b, e->c);
 	}
 	return sprintf(buf, "%c", e->kind);
 }
@@ -600,6 +645,7 @@ static int ev_parse(const char *tok, struct event *e)
 	case 's': if (sscanf(tok + 1, "%d.%d", &e->a, &e->b) != 2 || e->b < 0 || e->b > 7 || e->a < 0 || e->a > 255) return 0; return 1;
 	case 'S': if (sscanf(tok + 1, "%d.%d", &e->a, &e->b) != 2 || e->b < 0 || e->b >= NSHAPES || e->a < 0 || e->a > 255) return 0; return 1;
 	case 'r': if (sscanf(tok + 1, "%d.%d.%d", &e->a, &e->b, &e->c) != 3 || e->c < 0 || e->c > 7 || e->b < 0 || e->b > 255) return 0; return 1;
+	case 'z': if (sscanf(tok + 1, "%d.%d.%d", &e->a, &e->b, &e->c) != 3 || e->c < 0 || e->c > 7 || e->b < 0 || e->b > 2 || e->a < 0 || e->a > 255) return 0; return 1;
 	case 't': case 'x': case 'R': return tok[1] == 0;
 	}
 	return 0;
@@ -658,7 +704,7 @@ static void on_abort(int sig)
 
 NOSAN static int do_bfs(int argc, char **argv)
 {
-	int offs[32], noff = 0, prios[8], nprio = 0, rs[8], nr = 0, sets[5], nset = 0, rprio = 3, i, j;
+	int offs[32], noff = 0, prios[8], nprio = 0, rs[8], nr = 0, sets[5], nset = 0, zs[3], nz = 0, rprio = 3, i, j;
 	unsigned long cap = 4000000;
 	K = 2;
 	for (i = 2; i < argc; i++) {
@@ -666,6 +712,7 @@ NOSAN static int do_bfs(int argc, char **argv)
 		else if (!strncmp(argv[i], "off=", 4)) noff = parse_list(argv[i] + 4, offs, 32, NB);
 		else if (!strncmp(argv[i], "prio=", 5)) nprio = parse_list(argv[i] + 5, prios, 8, 8);
 		else if (!strncmp(argv[i], "resched=", 8)) nr = parse_list(argv[i] + 8, rs, 8, 0);
+		else if (!strncmp(argv[i], "rstcb=", 6)) nz = parse_list(argv[i] + 6, zs, 3, 3);
 		else if (!strncmp(argv[i], "rprio=", 6)) rprio = atoi(argv[i] + 6);
 		else if (!strncmp(argv[i], "sets=", 5)) nset = parse_list(argv[i] + 5, sets, 5, 5);
 		else if (!strncmp(argv[i], "cap=", 4)) cap = strtoul(argv[i] + 4, 0, 0);
@@ -675,10 +722,11 @@ NOSAN static int do_bfs(int argc, char **argv)
 	MAXREAL = K + 4;
 	verify_k = K;
 	RECSZ = REC_HDR + 2 * MAXREAL + 2 * (K + 1);
-	alpha = calloc(noff * (nprio + nr + nset) + 3, sizeof(*alpha));
+	alpha = calloc(noff * (nprio + nr + nset + nz) + 3, sizeof(*alpha));
 	for (i = 0; i < noff; i++) {
 		for (j = 0; j < nprio; j++) alpha[nalpha++] = (struct event){ 's', offs[i], prios[j], 0 };
 		for (j = 0; j < nr; j++) alpha[nalpha++] = (struct event){ 'r', offs[i], rs[j], rprio };
+		for (j = 0; j < nz; j++) alpha[nalpha++] = (struct event){ 'z', offs[i], zs[j], rprio };
 		for (j = 0; j < nset; j++) alpha[nalpha++] = (struct event){ 'S', offs[i], sets[j], 0 };
 	}
 	alpha[nalpha++] = (struct event){ 't', 0, 0, 0 };
@@ -781,9 +829,9 @@ NOSAN static int do_bfs(int argc, char **argv)
 		"\"alphabet\": %d, \"K\": %d, \"max_outstanding\": %d, \"ring_positions\": %d, \"min_states_per_position\": %d, "
 		"\"execute_calls\": %lu, \"items_due_at_execute\": %lu, \"schedule_calls\": %lu, \"set_calls\": %lu, \"resets\": %lu, "
 		"\"revisits\": %lu, \"item_types\": %d, \"set_calls_nonfirst_frame_on_slot24\": %lu, \"set_calls_wrapping_ring\": %lu, "
-		"\"sampled_traces_rerun_alone\": %lu, \"sampled_traces_differing\": %lu, \"history_dependent_keys\": %d, \"verify_requests\": %lu, %s, \"violations\": %lu}\n",
+		"\"resets_from_callbacks\": %lu, \"sampled_traces_rerun_alone\": %lu, \"sampled_traces_differing\": %lu, \"history_dependent_keys\": %d, \"verify_requests\": %lu, %s, \"violations\": %lu}\n",
 		nstates, ntrans, nbad, maxdepth, hitcap ? "false" : "true", nalpha, K, max_out, npos, minpos,
-		nexec_calls, nitems_run, nsched_ok, nsets_ok, nreset, ndup, ntypes, n_set_nonfirst_slot24, n_set_wrapping, nsampled, nsample_bad, hd, n_verify, hist_json(), nviol);
+		nexec_calls, nitems_run, nsched_ok, nsets_ok, nreset, ndup, ntypes, n_set_nonfirst_slot24, n_set_wrapping, n_reset_in_cb, nsampled, nsample_bad, hd, n_verify, hist_json(), nviol);
 	fflush(res);
 	return nviol ? 1 : 0;
 }
